@@ -14,7 +14,7 @@ from . import c11_world as W
 from . import c11_gen as G
 
 PROP = 'C11'
-RUN_TIMEOUT = 20.0
+RUN_TIMEOUT = 60.0
 DEFAULT_EXIT = ('ok', [W.DEFAULT_BLOCK_NAMES, W.DEFAULT_SPAN_NAMES])
 
 
@@ -72,7 +72,8 @@ class Judge:
 
     def run(self, history, want_log=False):
         """Execute one history in a fork of this (pristine) process and compare every observation."""
-        frames, status = core.fork_stream(lambda emit: W.execute(history, emit), RUN_TIMEOUT)
+        n_ops = sum(len(b.get('steps') or []) + 1 for b in history)
+        frames, status = core.fork_stream(lambda emit: W.execute(history, emit), RUN_TIMEOUT + 0.02 * n_ops)
         if status.startswith('crash'):
             raise core.HarnessError('run child crashed: %s\nhistory=%s' % (status, json.dumps(history)[:600]))
         res = {'n_obs': 0, 'n_compared': 0, 'faults': {}, 'natural_exc': 0, 'fps': set(), 'pairs': set(),
@@ -127,7 +128,7 @@ class Judge:
         if res['timeout'] and res['violation'] is None:
             res['violation'] = {'property': PROP, 'failing': {'b': None, 's': None, 'kind': 'HANG'},
                                 'expected': ('ok', 'terminates'), 'actual': ('hang', 'no result within %ss after %d observations'
-                                                                             % (RUN_TIMEOUT, len(frames))),
+                                                                             % (RUN_TIMEOUT + 0.02 * n_ops, len(frames))),
                                 'implicated': {}, 'klass': 'HANG', 'history': history}
         return res
 
@@ -156,7 +157,7 @@ def plan(tier, seed):
     n_sys = len(variants) * len(G.MODES) * len(rots)
     spec = _spec_docs()
     pairs = (G.pair_histories(tier) + G.nest_histories(tier) + G.cross_histories(tier) + G.toc_histories(tier)
-             + G.spec_pair_histories(tier, seed, spec) + G.atom_pair_histories(tier) + G.mutate_histories(tier) + G.scheme_histories(tier) + G.samekey_histories(tier))
+             + G.spec_pair_histories(tier, seed, spec) + G.atom_pair_histories(tier) + G.mutate_histories(tier) + G.scheme_histories(tier) + G.samekey_histories(tier) + G.marathon_histories(tier))
     if tier == 'thorough':
         n_rand, n_ff = int(os.environ.get('VERIF_C11_RUNS', 250000)), int(os.environ.get('VERIF_C11_FF_RUNS', 40000))
     else:
